@@ -49,11 +49,12 @@ var registry = map[string]*Check{}
 func Register(ch *Check) { registry[ch.ID] = ch }
 
 type Ctx struct {
-	ID      string
-	Tier    string
-	Shard   int
-	NShards int
-	Seed    int64
+	expCalls int64
+	ID       string
+	Tier     string
+	Shard    int
+	NShards  int
+	Seed     int64
 
 	idx       int64
 	counters  map[string]int64
@@ -105,7 +106,11 @@ func (c *Ctx) Expired() bool {
 	if c.expired {
 		return true
 	}
-	if c.idx%64 == 0 && !c.deadline.IsZero() && time.Now().After(c.deadline) {
+	// own call counter: Expired() is usually called only for cases this
+	// worker owns, so a test on the shared case index would never fire in
+	// most shards
+	c.expCalls++
+	if c.expCalls%16 == 1 && !c.deadline.IsZero() && time.Now().After(c.deadline) {
 		c.expired = true
 		c.capsHit = append(c.capsHit, "soft deadline")
 	}
